@@ -790,3 +790,187 @@ Qed.
 Example ex_super_fields_ok :
   match super_init 131072 7 4 with Common.Ok s => super_fields_ok s | _ => False end.
 Proof. vm_compute. repeat split. Qed.
+
+(* ------------------------------------------------------------------------------------------ *)
+(* C03's headline as ONE theorem about the composed packers (coq/ImgValid)                       *)
+(* ------------------------------------------------------------------------------------------ *)
+(* valid_image_full (coq/ImgValid/ValidFull.v, written from doc/format.adoc) = valid_image above AND the clauses about the
+   DATA area and the cross references that valid_image lacks (they were "evaluated on real images only"):
+     v_frag          every fragment table entry: size word without bits above bit 24, stored bytes inside the data area
+                     [behind super block + compressor options, inode table start), they decode (bit 24 clear: through the data
+                     decompressor) into 1 .. block size bytes, stored size <= decoded size
+     v_data          every file inode: block k has uncompressed size ub = min(block size, bytes left) >= 1; size word 0 = sparse;
+                     else stored size <= ub, the stored bytes lie inside the data area directly behind the previous stored block
+                     from blocks_start and decode into EXACTLY ub bytes; the words cover exactly the file size (without the tail end
+                     when the inode names a fragment); fragment index < fragment count, offset + tail size <= decoded length of
+                     that fragment block
+     v_xattr_inodes  every xattr index is 0xFFFFFFFF or < the count of the xattr id table
+     v_export        with an export table: slot k - 1 names the stream offset at which inode k starts, for every inode
+     v_links         directory: link count = 2 + entries (or 2 + sub-directories), every entry of directory type resolves to a
+                     directory whose parent number is the listing directory's number; other inodes: link count = number of
+                     directory entries with that inode number
+   pack_all (coq/ImgE2E/PackAll.v) = gensquashfs after option parsing: fstree_add_generic*, fstree_post_process, the xattr
+   writer over the tree in apply_dfs order, C08's block processor + block writer over fs->files, sqfs_xattr_writer_flush,
+   sqfs_writer_finish.  Hypotheses: the two compressor contracts (data: result strictly smaller, decompresses with any
+   sufficient capacity; metadata: include/sqfs/compressor.h), id table limit, the run succeeds, and the decidable domain e2e_okb
+   of pack_all_reads_back (Properties_C01.v section 7: field ranges of the adds, supported xattr keys of bounded size, files
+   < 2^31 - 1 bytes, compressor id 1..6, 32 / 16 bit location fields of the run, image < 2^63 bytes, < 2^32 - 1 xattr blocks).
+   NOTHING about the data area, the fragment table, the xattr section or the link counts is assumed: they are what the
+   composed model computes.  New ingredients: the block processor's invariant at the end of pack read on the image bytes
+   (ImgValid/PackData), the xattr indices handed out by sqfs_xattr_writer_end vs the count in the image (XattrCount), and the
+   link counts of lib/fstree: a directory's is 2 + children because no hard link resolves to a directory, a non-directory's is
+   1 + the number of links resolved to it = the number of entries with its number because fs->links_unresolved holds every
+   hard link node exactly once (ImgValid/LinksExact, PackLinks). *)
+From SqfsV Require Import ImgE2E.PackAll ImgE2E.Hyps.
+From SqfsV Require Import ImgValid.ValidFull ImgValid.Clauses ImgValid.PackValid ImgValid.TarValid ImgValid.WriterFull.
+From SqfsV Require ImgValid.Example ImgValid.PackTree ImgValid.PackLinks.
+From SqfsV Require C04.TarStream ImgTar.Model ImgTarFull.Model ImgTarFull.Bridge ImgTarFull.Rooted.
+From SqfsV Require ImgPost.Bridge ImgPost.InputOk C11.FstreeModel C11.PostModel.
+
+(* conclusion: the whole validator accepts; and the same by parts (valid_image_full = valid_image && valid_refs on the super
+   block read from the image; valid_refs follows from valid_core — v_frag, v_data, v_xattr_inodes, v_export, the directory part
+   of v_links — and valid_nlinks — link counts of the other inodes: ImgValid/Fast.valid_refs_split) *)
+Theorem pack_all_image_valid :
+  forall hashf dcompress duncompress, dcontract dcompress duncompress ->
+  forall mcompress muncompress, mcontract mcompress muncompress ->
+  forall limit, limit <= 65535 ->
+  forall half cfg pi r,
+  pack_all hashf dcompress duncompress half mcompress limit cfg pi = PDone r ->
+  e2e_okb half cfg pi r = true ->
+  let img := image_bytes (r_w r) in
+  valid_image_full muncompress duncompress (c_devblk cfg) img = true /\
+  valid_image muncompress (c_devblk cfg) img = true /\
+  exists s, read_super img = Some s /\ valid_core muncompress duncompress img s = true /\
+            valid_nlinks muncompress img s = true.
+Proof.
+  exact (fun hashf dc du Hd mc mu Hm limit Hl half cfg pi r Hrun Hok =>
+           conj (pack_all_image_valid_l hashf dc du Hd mc mu Hm limit Hl half cfg pi r Hrun Hok)
+                (pack_all_image_valid_clauses_l hashf dc du Hd mc mu Hm limit Hl half cfg pi r Hrun Hok)).
+Qed.
+Print Assumptions pack_all_image_valid.
+
+(* tar2sqfs (coq/ImgTarFull: t2s_full = process_tarball + the same back half; Properties_C04.tar2sqfs_is_pack_all /
+   tar2sqfs_rooted_is_pack_all): archives in the decidable shape tree_shapeb (what sqfs2tar writes), without and with an entry
+   for the root directory in front *)
+Theorem tar2sqfs_image_valid :
+  forall hashf dcompress duncompress, dcontract dcompress duncompress ->
+  forall mcompress muncompress, mcontract mcompress muncompress ->
+  forall limit, limit <= 65535 ->
+  forall half cfg no_tail_pack d opts sched,
+  (forall vs r,
+     ImgTar.Model.tree_shapeb vs = true ->
+     ImgTarFull.Model.t2s_full ImgTar.Model.opts0 no_tail_pack false d hashf dcompress duncompress half mcompress limit cfg opts sched vs
+       = PDone r ->
+     e2e_okb half cfg (ImgTarFull.Bridge.pi_of no_tail_pack cfg d opts sched vs) (ImgTarFull.Bridge.with_root r) = true ->
+     valid_image_full muncompress duncompress (c_devblk cfg) (image_bytes (r_w r)) = true) /\
+  (forall t0 e0 vs r,
+     ImgTar.Model.pt_op_of ImgTar.Model.opts0 d t0 = ImgTar.Model.PRootAttr e0 -> ImgTar.Model.tree_shapeb vs = true ->
+     ImgTarFull.Model.t2s_full ImgTar.Model.opts0 no_tail_pack false d hashf dcompress duncompress half mcompress limit cfg opts sched
+       (t0 :: vs) = PDone r ->
+     e2e_okb half cfg (ImgTarFull.Bridge.pi_gen no_tail_pack cfg (ImgTarFull.Rooted.root_defaults true d e0) opts sched
+                         (ImgTarFull.Model.xkept (TarStream.te_xattr t0)) vs) r = true ->
+     valid_image_full muncompress duncompress (c_devblk cfg) (image_bytes (r_w r)) = true).
+Proof.
+  exact (fun hashf dc du Hd mc mu Hm limit Hl half cfg ntp d opts sched =>
+           conj (fun vs r => tar2sqfs_image_valid_l hashf dc du Hd mc mu Hm limit Hl half cfg ntp d opts sched vs r)
+                (fun t0 e0 vs r => tar2sqfs_rooted_image_valid_l hashf dc du Hd mc mu Hm limit Hl half cfg ntp d opts sched t0 e0 vs r)).
+Qed.
+Print Assumptions tar2sqfs_image_valid.
+
+(* writer_valid_full: the layer below — write_image with ABSTRACT data area / fragment entries / xattr section / tree, as in
+   writer_valid: the extended validator accepts whenever the inputs satisfy (ImgValid/Clauses.v) data_ok (v_frag / v_data
+   evaluated on the tree's file payloads and the image bytes), xattr_ok (every node's index is 0xFFFFFFFF or below the count
+   in the image), tree_dirs (directory link counts 2 + children, a child directory's parent number, every node but the root
+   is listed) and tree_nlinks (other link counts = number of entries with the node's number) *)
+Theorem writer_valid_full : forall compress uncompress, contract compress uncompress ->
+  forall (duncompress : list N -> nat -> option (list N)) limit, limit <= 65535 ->
+  forall cfg inp w,
+  write_image compress limit cfg inp = Res.Ok w -> image_domain cfg inp = true -> image_fits w = true ->
+  xattr_section_ok uncompress w ->
+  data_ok duncompress cfg inp w -> xattr_ok uncompress inp w ->
+  tree_dirs (in_tree inp) -> tree_nlinks (in_tree inp) ->
+  valid_image_full uncompress duncompress (c_devblk cfg) (image_bytes w) = true.
+Proof. exact writer_valid_full_l. Qed.
+Print Assumptions writer_valid_full.
+
+(* post_tree_link_counts: the link counts and parent numbers of the tree lib/fstree hands to the serializer are those of its
+   directory structure, for EVERY sequence of successful adds and every successful fstree_post_process (input bounds of
+   ImgPost.InputOk).  (The counting argument behind v_links: ImgValid/PackTree.v, PackLinks.v.) *)
+Theorem post_tree_link_counts : forall bs d ops fs pp fb xa,
+  InputOk.input_okb bs d ops = true ->
+  Bridge.run_adds d (FstreeModel.fs_init d) ops = Some fs ->
+  PostModel.post_process fs = PostModel.POk pp ->
+  tree_dirs (Bridge.to_img fb xa pp) /\ tree_nlinks (Bridge.to_img fb xa pp).
+Proof.
+  exact (fun bs d ops fs pp fb xa Hin Hrun Hpost =>
+           conj (PackTree.pack_tree_dirs bs d ops fs pp fb xa Hin Hrun Hpost)
+                (PackLinks.pack_tree_nlinks bs d ops fs pp fb xa Hin Hrun Hpost)).
+Qed.
+Print Assumptions post_tree_link_counts.
+
+(* ---- non-vacuity (coq/ImgValid/Example.v, vm_compute) ---- *)
+(* the decidable hypotheses hold of two concrete runs of pack_all (the instance of ImgE2E/Example.v: two files sharing a data
+   block and a fragment, a hard link, three xattr sets; zero-run-length resp. no metadata compression; the compressor contracts:
+   Properties_C01.ex_e2e_contracts) and the whole validator computes to true on both images *)
+Example ex_full_valid :
+  match ImgE2E.Example.ex_run, ImgValid.Example.ex_run0 with
+  | PDone r, PDone r0 =>
+      e2e_okb ImgE2E.Example.ex_half ImgE2E.Example.ex_cfg ImgE2E.Example.ex_pi r = true /\
+      e2e_okb ImgE2E.Example.ex_half ImgE2E.Example.ex_cfg ImgE2E.Example.ex_pi r0 = true /\
+      ImgValid.Example.vfull 3 (image_bytes (r_w r)) = (true, 0) /\ ImgValid.Example.vfull 0 (image_bytes (r_w r0)) = (true, 0)
+  | _, _ => False
+  end.
+Proof. exact ImgValid.Example.ex_full_valid. Qed.
+
+(* the new clauses are not vacuous: byte patches of the second image (uncompressed metadata, so every inode field has a known
+   position; the first seven conjuncts state what is at the patched positions) are rejected, each by the clause it aims at
+   (second component = first_failure_full: 13 v_frag, 14 v_data, 15 v_xattr_inodes, 16 v_export, 17 / 18 v_links): a size word
+   above the block size, the uncompressed bit set on a compressed block, a stored size one byte too long, blocks_start inside
+   the super block, fragment index = fragment count, fragment offset beyond the fragment block, a fragment entry in the inode
+   table / one byte too long, xattr index = number of sets, an export slot naming another inode, a file's link count + 1 *)
+Example ex_full_corrupted :
+  match ImgValid.Example.ex_run0 with
+  | PDone r0 =>
+      let b := image_bytes (r_w r0) in
+      let patch := ImgValid.Example.patch in
+      let vfull := ImgValid.Example.vfull in
+      rd32 (dropN 163 b) = 4 /\ rd32 (dropN 151 b) = 0 /\ rd32 (dropN 159 b) = 0 /\ rd32 (dropN 147 b) = 2 /\
+      rd64 (dropN 123 b) = 96 /\ rd64 (dropN 371 b) = 100 /\ rd32 (dropN 379 b) = 16777221 /\
+      vfull 0 (patch 163 (le32 4097) b) = (false, 14) /\
+      vfull 0 (patch 163 (le32 16777220) b) = (false, 14) /\
+      vfull 0 (patch 163 (le32 5) b) = (false, 14) /\
+      vfull 0 (patch 123 (le64 90) b) = (false, 14) /\
+      vfull 0 (patch 151 (le32 1) b) = (false, 14) /\
+      vfull 0 (patch 155 (le32 1) b) = (false, 14) /\
+      vfull 0 (patch 371 (le64 200) b) = (false, 13) /\
+      vfull 0 (patch 379 (le32 16777222) b) = (false, 13) /\
+      vfull 0 (patch 159 (le32 3) b) = (false, 15) /\
+      vfull 0 (patch 397 (le64 60) b) = (false, 16) /\
+      vfull 0 (patch 147 (le32 3) b) = (false, 18)
+  | _ => False
+  end.
+Proof. exact ImgValid.Example.ex_full_corrupted. Qed.
+
+(* ... and the directory clauses of v_links: the root's link count + 1, the parent number of directory d *)
+Example ex_full_corrupted_dirs :
+  match ImgValid.Example.ex_run0 with
+  | PDone r0 =>
+      let b := image_bytes (r_w r0) in
+      rd32 (dropN (107 + 159 + 20) b) = 5 /\ rd32 (dropN (107 + 96 + 28) b) = 5 /\
+      ImgValid.Example.vfull 0 (ImgValid.Example.patch (107 + 159 + 20) (le32 6) b) = (false, 17) /\
+      ImgValid.Example.vfull 0 (ImgValid.Example.patch (107 + 96 + 28) (le32 4) b) = (false, 17)
+  | _ => False
+  end.
+Proof. exact ImgValid.Example.ex_full_corrupted_dirs. Qed.
+
+(* tar2sqfs_image_valid: the archive of ImgTarFull/Example.v (directory with xattrs, file with two pairs, hard link record,
+   sparse file, symbolic link) is in shape, the run meets e2e_okb, the image is accepted *)
+Example ex_full_valid_tar :
+  ImgTar.Model.tree_shapeb ImgTarFull.Example.fx_vs = true /\
+  match ImgTarFull.Example.fx_t2s ImgTarFull.Example.fx_vs with
+  | PDone r =>
+      ImgTarFull.Example.fx_okb ImgTarFull.Example.fx_vs r = true /\
+      ImgValid.Example.vfull 3 (image_bytes (r_w r)) = (true, 0)
+  | _ => False
+  end.
+Proof. exact ImgValid.Example.ex_full_valid_tar. Qed.
